@@ -104,7 +104,7 @@ def check_one(t, src, idx_err_expected, budget=5):
     except Exception as ex:
         t.violation("simplify_chained_calls.visit:ensures WF(result)",
                     f"result is not a valid AST ({type(ex).__name__}: {str(ex)[:80]})", src, None,
-                    ast.dump(r)[:300], replay)
+                    _safe_dump(r), replay)
         return
     t.contract("sem(visit(q)) == sem(q) where defined")
     for i, d in enumerate(sc.DATA):
@@ -118,6 +118,13 @@ def check_one(t, src, idx_err_expected, budget=5):
                         "sub-expression not left semantically intact", f"{src}  [data set {i}]",
                         r0, f"{r1} via {text}", dict(replay, data=i))
             return
+
+
+def _safe_dump(r):
+    try:
+        return ast.dump(r)[:300]
+    except RecursionError:
+        return "<AST that cannot be dumped: cyclic or unboundedly deep>"
 
 
 def run(t):
